@@ -247,45 +247,96 @@ mutual
       cases ser .json t v <;> cases serF .json fs vs <;> rfl
 end
 
+def membersHaveText (k : List Nat) : Members → Bool
+  | .nil => false
+  | .cons (.text k') _ ms => k' == k || membersHaveText k ms
+  | .cons _ _ ms => membersHaveText k ms
+
 mutual
-  /-- **JSON in, JSON out**: a JSON document parsed into the dynamic value re-serializes to itself -/
-  theorem jsonAnyJson : ∀ (d : Doc), JsonClean d → ∀ a, ofJson d = some a → toJson a = some d
-    | .null, _, a, h => by simp [ofJson] at h; subst h; rfl
-    | .bool b, _, a, h => by simp [ofJson] at h; subst h; rfl
-    | .int n, _, a, h => by simp [ofJson] at h; subst h; rfl
-    | .dbl (.fin b), _, a, h => by simp [ofJson] at h; subst h; rfl
-    | .dbl .nan, hc, _, _ => by simp [JsonClean] at hc
-    | .dbl .posInf, hc, _, _ => by simp [JsonClean] at hc
-    | .dbl .negInf, hc, _, _ => by simp [JsonClean] at hc
-    | .str s, _, a, h => by simp [ofJson] at h; subst h; rfl
-    | .bin _, _, a, h => by simp [ofJson] at h
-    | .arr xs, hc, a, h => by
+  /-- no object of the document names a member twice -/
+  def DistinctKeys : Doc → Prop
+    | .arr xs => DistinctKeysL xs
+    | .obj ms => DistinctKeysM ms
+    | _ => True
+  def DistinctKeysL : Docs → Prop
+    | .nil => True
+    | .cons x xs => DistinctKeys x ∧ DistinctKeysL xs
+  def DistinctKeysM : Members → Prop
+    | .nil => True
+    | .cons (.text k) v ms => membersHaveText k ms = false ∧ DistinctKeys v ∧ DistinctKeysM ms
+    | .cons _ v ms => DistinctKeys v ∧ DistinctKeysM ms
+end
+
+theorem entriesHaveStr_ofJsonM (k : List Nat) : ∀ (ms : Members) (as : AnyEntries), ofJsonM ms = some as →
+    entriesHaveStr k as = membersHaveText k ms
+  | .nil, as, h => by simp [ofJsonM] at h; subst h; rfl
+  | .cons (.text k') v ms, as, h => by
+    simp only [ofJsonM] at h
+    cases e1 : ofJson v <;> cases e2 : ofJsonM ms <;> simp [e1, e2] at h
+    rename_i a as'
+    have ih := entriesHaveStr_ofJsonM k ms as' e2
+    subst h
+    simp only [membersHaveText]
+    split
+    · rename_i hh
+      rw [ih]
+      by_cases hk : k' = k
+      · subst hk
+        have := entriesHaveStr_ofJsonM k' ms as' e2
+        rw [hh] at this
+        simp [← this]
+      · simp [hk]
+    · simp [entriesHaveStr, ih]
+  | .cons (.flt _) v ms, as, h => by simp [ofJsonM] at h
+
+mutual
+  /-- **JSON in, JSON out**: a JSON document (no object naming a member twice) parsed into the dynamic value
+  re-serializes to itself -/
+  theorem jsonAnyJson : ∀ (d : Doc), JsonClean d → DistinctKeys d → ∀ a, ofJson d = some a → toJson a = some d
+    | .null, _, _, a, h => by simp [ofJson] at h; subst h; rfl
+    | .bool b, _, _, a, h => by simp [ofJson] at h; subst h; rfl
+    | .int n, _, _, a, h => by simp [ofJson] at h; subst h; rfl
+    | .dbl (.fin b), _, _, a, h => by simp [ofJson] at h; subst h; rfl
+    | .dbl .nan, hc, _, _, _ => by simp [JsonClean] at hc
+    | .dbl .posInf, hc, _, _, _ => by simp [JsonClean] at hc
+    | .dbl .negInf, hc, _, _, _ => by simp [JsonClean] at hc
+    | .str s, _, _, a, h => by simp [ofJson] at h; subst h; rfl
+    | .bin _, _, _, a, h => by simp [ofJson] at h
+    | .arr xs, hc, hd, a, h => by
       simp only [ofJson, Option.map_eq_some_iff] at h
       obtain ⟨as, h1, rfl⟩ := h
       simp only [JsonClean] at hc
-      simp [toJson, jsonAnyJsonL xs hc as h1]
-    | .obj ms, hc, a, h => by
+      simp only [DistinctKeys] at hd
+      simp [toJson, jsonAnyJsonL xs hc hd as h1]
+    | .obj ms, hc, hd, a, h => by
       simp only [ofJson, Option.map_eq_some_iff] at h
       obtain ⟨as, h1, rfl⟩ := h
       simp only [JsonClean] at hc
-      simp [toJson, jsonAnyJsonM ms hc as h1]
-  theorem jsonAnyJsonL : ∀ (xs : Docs), JsonCleanL xs → ∀ as, ofJsonL xs = some as → toJsonL as = some xs
-    | .nil, _, as, h => by simp [ofJsonL] at h; subst h; rfl
-    | .cons x xs, hc, as, h => by
+      simp only [DistinctKeys] at hd
+      simp [toJson, jsonAnyJsonM ms hc hd as h1]
+  theorem jsonAnyJsonL : ∀ (xs : Docs), JsonCleanL xs → DistinctKeysL xs → ∀ as, ofJsonL xs = some as → toJsonL as = some xs
+    | .nil, _, _, as, h => by simp [ofJsonL] at h; subst h; rfl
+    | .cons x xs, hc, hd, as, h => by
       simp only [ofJsonL] at h
       simp only [JsonCleanL] at hc
+      simp only [DistinctKeysL] at hd
       cases e1 : ofJson x <;> cases e2 : ofJsonL xs <;> simp [e1, e2] at h
       subst h
-      simp [toJsonL, jsonAnyJson x hc.1 _ e1, jsonAnyJsonL xs hc.2 _ e2]
-  theorem jsonAnyJsonM : ∀ (ms : Members), JsonCleanM ms → ∀ as, ofJsonM ms = some as → toJsonE as = some ms
-    | .nil, _, as, h => by simp [ofJsonM] at h; subst h; rfl
-    | .cons (.text k) v ms, hc, as, h => by
+      simp [toJsonL, jsonAnyJson x hc.1 hd.1 _ e1, jsonAnyJsonL xs hc.2 hd.2 _ e2]
+  theorem jsonAnyJsonM : ∀ (ms : Members), JsonCleanM ms → DistinctKeysM ms → ∀ as, ofJsonM ms = some as → toJsonE as = some ms
+    | .nil, _, _, as, h => by simp [ofJsonM] at h; subst h; rfl
+    | .cons (.text k) v ms, hc, hd, as, h => by
       simp only [ofJsonM] at h
       simp only [JsonCleanM] at hc
+      simp only [DistinctKeysM] at hd
       cases e1 : ofJson v <;> cases e2 : ofJsonM ms <;> simp [e1, e2] at h
+      rename_i a as'
+      have hk : entriesHaveStr k as' = false := by rw [entriesHaveStr_ofJsonM k ms as' e2]; exact hd.1
+      rw [hk] at h
+      simp at h
       subst h
-      simp [toJsonE, anyKey, jsonAnyJson v hc.1 _ e1, jsonAnyJsonM ms hc.2 _ e2]
-    | .cons (.flt _) v ms, _, as, h => by simp [ofJsonM] at h
+      simp [toJsonE, anyKey, jsonAnyJson v hc.1 hd.2.1 _ e1, jsonAnyJsonM ms hc.2 hd.2.2 _ e2]
+    | .cons (.flt _) v ms, _, _, as, h => by simp [ofJsonM] at h
 end
 
 end ConjureVerif.AnyM
